@@ -51,7 +51,28 @@ class ByteSource:
         return self.pool.pop()
 
 
+def gen_full_ring_history(rng, bs):
+    """putchar against a full (or nearly full) small ring under fine-grained free preemption: the ring is first filled by
+    completed puts, then every segment boundary is a possible preemption point"""
+    L = rng.choice([2, 2, 3, 3, 3, 4])
+    pre = L - 1 if rng.chance(2, 3) else L - 2
+    ntail = rng.range(2, 4)
+    prod = ['put:%d' % bs.next() for _ in range(pre)]
+    prod += [('putchar:%d' if rng.chance(3, 4) else 'put:%d') % bs.next() for _ in range(ntail)]
+    cons = ['get'] * (ntail + rng.range(0, 1))
+    sched = ['0c'] * pre
+    den = rng.choice([2, 2, 3, 4])
+    t = rng.below(2)
+    for _ in range(rng.range(6, 7 * (ntail + len(cons)))):
+        if rng.chance(1, den):
+            t ^= 1
+        sched.append(str(t))
+    return {'len': L, 'start': rng.choice([0, L - 1, rng.below(L)]), 'fill': rng.below(256), 'prod': prod, 'cons': cons, 'sched': sched, 'style': 'putchar-full'}
+
+
 def gen_history(rng, bs):
+    if rng.chance(1, 4):
+        return gen_full_ring_history(rng, bs)
     L = rng.choice([2, 2, 3, 3, 4, 5, 16])
     start = rng.choice([0, L - 1, max(L - 2, 0), rng.below(L)])
     style = rng.choice(['free', 'free', 'bursty', 'isr-cons', 'isr-prod'])
@@ -261,20 +282,116 @@ def report_violation(ctx, exe, h, reason):
                    'engine': 'ring', 'how_to_rerun': f'./check {ctx.pid} --replay <this file>'}, key=hkey(hs))
 
 
+def run_impl_parallel(exe, hs, workers=1):
+    if workers <= 1 or len(hs) < 4 * workers:
+        return run_impl(exe, hs, timeout=40 if len(hs) <= 2000 else 900)
+    chunks = [hs[i::workers] for i in range(workers)]
+    with ThreadPoolExecutor(workers) as ex:
+        res = list(ex.map(lambda a: run_impl(exe, a[1], timeout=900, cpu=a[0] % (os.cpu_count() or 1)), enumerate(chunks)))
+    impl = [None] * len(hs)
+    for w, r in enumerate(res):
+        for j, o in enumerate(r):
+            impl[w + j * workers] = o
+    return impl
+
+
+# ----------------------------------------------------------------------------------------------- systematic exploration
+EXPLORE_MAXB = 14        # longest uninterrupted run of one thread inside the explored part of a schedule (segments)
+
+
+def explore_scenarios():
+    """small scenarios around a full ring: buf_len 2-3, pre-filled by completed puts to buf_len-1 or buf_len-2, producer then
+    runs 2-3 putchar/put, consumer 2-3 gets.  Bytes are pairwise distinct and differ from the fill byte, so a lost, duplicated
+    or reordered byte is visible."""
+    out = []
+    for L in (2, 3):
+        for pre in (L - 1, L - 2):
+            for si, (shape, ncons) in enumerate(((('putchar', 'putchar'), 2), (('putchar', 'putchar', 'put'), 3), (('put', 'putchar', 'putchar'), 3))):
+                for start in ((0, L - 1)[(si + pre) % 2],):
+                    prod = ['put:%d' % (i + 1) for i in range(pre)] + ['%s:%d' % (k, 101 + i) for i, k in enumerate(shape)]
+                    out.append({'len': L, 'start': start, 'fill': 0xEE, 'prod': prod, 'cons': ['get'] * ncons, 'pre': pre})
+    return out
+
+
+def explore_history(sc, blocks):
+    """schedule = complete the pre-fill puts, then the given blocks (thread, number of single segments), then finish by
+    alternating complete calls (consumer first, so a spinning putchar always gets its chance)"""
+    sched = ['0c'] * sc['pre']
+    for t, n in blocks:
+        sched += [str(t)] * n
+    sched += ['1c', '0c'] * (max(len(sc['prod']), len(sc['cons'])) + 1)
+    h = {k: v for k, v in sc.items() if k != 'pre'}
+    h['sched'] = sched
+    h['style'] = 'explore'
+    return h
+
+
+def overshoots(sc, blocks, out):
+    """did some explored block ask a thread to run after it had finished?  (then a shorter block gives the same run)"""
+    body = [l for l in out if l != 'ok']
+    i, need = 0, sc['pre']
+    while need and i < len(body):
+        if body[i].startswith('T0 ret'):
+            need -= 1
+        i += 1
+    n = sum(b[1] for b in blocks)
+    return any(' idle ' in l for l in body[i:i + n]) or len(body) < i + n
+
+
+def explore(ctx, exe, rng, budget_per_scenario, max_switches, workers=12, with_model=False):
+    """Implementation-driven systematic exploration: for each small scenario, ALL schedules whose explored part consists of at
+    most `max_switches`+1 uninterrupted runs of 1..EXPLORE_MAXB single segments (i.e. at most `max_switches` preemptions at
+    arbitrary segment boundaries, in either direction), each executed on the real code and judged by the FIFO reference only.
+    Nothing here uses the model's idea of how many operations a call performs: whether a run is longer than the thread's
+    life is read off the implementation's own log.  Deeper levels are sampled when they exceed the budget."""
+    total, levels = 0, {}
+    for sc in explore_scenarios():
+        frontier, spent = [[]], 0
+        for depth in range(0, max_switches + 2):
+            if depth == 0:
+                cands = [[]]
+            else:
+                cands = [pre + [(t, n)] for pre in frontier for t in (0, 1) if not pre or pre[-1][0] != t for n in range(1, EXPLORE_MAXB + 1)]
+            if not cands:
+                break
+            sampled = False
+            if spent + len(cands) > budget_per_scenario:
+                cands = rng.shuffle(cands)[:max(0, budget_per_scenario - spent)]
+                sampled = True
+            if not cands:
+                break
+            hs = [explore_history(sc, b) for b in cands]
+            spent += len(hs); total += len(hs)
+            levels[depth] = levels.get(depth, 0) + len(hs)
+            outs = run_impl_parallel(exe, hs, workers)
+            models = run_model(ctx, hs) if with_model else None
+            for i, (h, o) in enumerate(zip(hs, outs)):
+                why = oracle(h, o)
+                if why is not None:
+                    report_violation(ctx, exe, h, why)
+                    ctx.cov['systematic_exploration'] = {'schedules': total, 'found_with_explored_runs': depth}
+                    return total
+                if with_model:
+                    stats(ctx, h, o)
+                    mo = models[i] if i < len(models) else ['!! missing']
+                    if o != mo and not any(b.startswith('correspondence ring:') for b in ctx.broken):
+                        k = vlib.diff_streams(o, mo)
+                        ctx.broken.append(f'correspondence ring: model differs from implementation (implementation satisfies the FIFO reference) on {lines_of(h)}: '
+                                          f'at output {k}: model={mo[k:k + 2] if k is not None else None} impl={o[k:k + 2] if k is not None else None}')
+            frontier = [b for b, o in zip(cands, outs) if not overshoots(sc, b, o)] if depth else [[]]
+            if sampled:
+                break
+    ctx.cov['systematic_exploration'] = {'schedules': total, 'schedules_by_number_of_explored_runs': {str(k): v for k, v in levels.items()},
+                                         'scenarios': len(explore_scenarios()), 'max_run_length': EXPLORE_MAXB,
+                                         'rule': 'buf_len 2-3 pre-filled to len-1/len-2, 2-3 putchar/put vs 2-3 get, every placement of up to %d preemptions (deepest level sampled to the budget)' % max_switches}
+    return total
+
+
 def check_histories(ctx, exe, hs, workers=1, stop_on_first=True):
     """impl vs oracle (violation) and impl vs model (correspondence).  Returns number of histories in full agreement."""
     if not hs:
         return 0
-    if workers > 1:
-        chunks = [hs[i::workers] for i in range(workers)]
-        with ThreadPoolExecutor(workers) as ex:
-            res = list(ex.map(lambda a: run_impl(exe, a[1], timeout=900, cpu=a[0] % (os.cpu_count() or 1)), enumerate(chunks)))
-        impl = [None] * len(hs)
-        for w, r in enumerate(res):
-            for j, o in enumerate(r):
-                impl[w + j * workers] = o
-    else:
-        impl = run_impl(exe, hs)
+    impl = run_impl_parallel(exe, hs, workers)
     model = run_model(ctx, hs)
     agreed = 0
     for i, h in enumerate(hs):
@@ -413,8 +530,16 @@ def run(ctx):
                     agreed += check_histories(ctx, exe, eh, workers=12)
         ctx.cov['exhaustive'] = (f'all {ex} schedules (up to commuting of independent segments) of 3 puts || 3 gets, 3 puts || get/empty/get/get and 4 puts || 4 gets '
                                  'on buf_len 2 and 3 from every start index')
+    if ctx.tier == 'thorough' and not ctx.violations:
+        nx = explore(ctx, exe, rng, budget_per_scenario=12000, max_switches=4, with_model=True)
+        total += nx
+        if not ctx.violations and not any(b.startswith('correspondence ring:') for b in ctx.broken):
+            agreed += nx
     if ctx.broken and not ctx.violations:
-        # proofs or correspondence broke: deeper search against the reference only
+        # proofs or correspondence broke: systematic exploration of small full-ring scenarios on the real code ...
+        explore(ctx, exe, rng, budget_per_scenario=6500 if ctx.tier == 'quick' else 12000, max_switches=4)
+    if ctx.broken and not ctx.violations:
+        # ... then a deeper random search, both against the reference only
         deep = [gen_history(rng, bs) for _ in range(3000 if ctx.tier == 'quick' else 20000)]
         outs = run_impl(exe, deep, timeout=300)
         for h, o in zip(deep, outs):
@@ -431,7 +556,7 @@ def run(ctx):
     for h in hs[:2] + hs[-1:]:
         ctx.sample({k: (v if k != 'sched' else ' '.join(v)[:120]) for k, v in h.items()})
     ctx.cov['rule'] = ('history = (buf_len in {2,3,4,5,16}, start index incl. buf_len-1, storage fill byte, producer script of put/putchar over all byte values, consumer script of get/empty, '
-                       'schedule of segments: free preemption, bursty, interrupt-style run-to-completion in either direction); distinct = distinct history text; non-trivial = at least one byte was put successfully')
+                       'schedule of segments: free preemption, bursty, interrupt-style run-to-completion in either direction, and putchar against a pre-filled full ring with fine-grained preemption); distinct = distinct history text; non-trivial = at least one byte was put successfully')
     ctx.assumptions.append(META['level_note'])
 
 
